@@ -358,6 +358,9 @@ pub fn compute_base(src: &str) -> Result<Base, Parsed> {
         let class = format!("{}{}:{}:after-{}", if ind > 0 { "block" } else { "top" }, if depth > 0 { "+enclosed" } else { "" }, rel, after);
         let ls = text.line_start[l];
         sites.push(Site { rewrite: "blank-line", variant: "", class: class.clone(), edits: vec![Edit { start: ls, end: ls, text: "\n".into() }], alt: None, line: l, col: 0 });
+        // the same rewrite applied twice at one site: a parser that tolerates exactly one extra Newline passes the single application
+        sites.push(Site { rewrite: "blank-line", variant: "two-blank-lines", class: class.clone(), edits: vec![Edit { start: ls, end: ls, text: "\n\n".into() }], alt: None, line: l, col: 0 });
+        sites.push(Site { rewrite: "own-line-comment", variant: "blank-line-then-comment", class: class.clone(), edits: vec![Edit { start: ls, end: ls, text: format!("\n{}# c\n", " ".repeat(ind)) }], alt: None, line: l, col: 0 });
         sites.push(Site { rewrite: "own-line-comment", variant: "indented-as-next-line", class: class.clone(), edits: vec![Edit { start: ls, end: ls, text: format!("{}# c\n", " ".repeat(ind)) }], alt: None, line: l, col: 0 });
         if ind > 0 {
             // one class: what distinguishes this variant is the comment's column inside a block
